@@ -202,7 +202,7 @@ def encode_string(string):
     if string is None:
         return NULL_VALUE
 
-    if not string:
+    if isinstance(string, (str, bytes)) and not string:
         return EMPTY_VALUE
 
     try:
